@@ -224,6 +224,60 @@ def check_M4(ctx, rep):
                              'used in a condition attached to a clause keeps its source name while its binding occurrence is renamed' % (b['name'], f), loc=cr.loc(a['b']))
     if n < 3:
         raise Broken('M4: only %d body-item visitors with a Clause arm found' % n)
+    # the same for aggregations: between them, the Agg arms of the renamer's visitors reach every field of AggClauseNode that
+    # holds variables (result pattern, aggregated variables, relation arguments, aggregator expression); the collector and the
+    # renaming visitor of *bound* variables (siblings) look into the same fields
+    agg_adt = None
+    for path, a in cr.adts.items():
+        if path.endswith('ascent_syntax::AggClauseNode'):
+            agg_adt = a
+    if agg_adt is None:
+        raise Broken('ascent_syntax::AggClauseNode not found')
+    agg_carriers = []
+    for f in agg_adt['variants'][0]['fields']:
+        ty = cr.s(f['ty']) or ''
+        if 'Punctuated<proc_macro2::Ident' in ty.replace('syn::punctuated::', '').replace('proc_macro2::Ident', 'proc_macro2::Ident') or \
+                any(t in ty for t in ('syn::Pat', 'syn::Expr', 'AggregatorNode')) or ('Punctuated<' in ty and 'Ident' in ty):
+            agg_carriers.append(f['n'])
+    if len(agg_carriers) < 4:
+        raise Broken('AggClauseNode: expected pat, aggregator, bound_args, rel_args to carry variables, found %s' % agg_carriers)
+    per_fn = {}
+    for path, b in sorted(cr.bodies.items()):
+        if b['name'] not in ('body_item_get_bound_vars', 'body_item_visit_bound_vars_mut', 'body_item_visit_exprs_free_vars_mut') or not b['params']:
+            continue
+        p0 = b['params'][0].get('id')
+        for x, _ in walk(b['tree']):
+            if x.get('k') != 'match':
+                continue
+            scr = chain_root(x['e'])
+            if scr is None or scr.get('id') != p0:
+                continue
+            for a in x['arms']:
+                if not any(((y.get('path') or {}).get('d') or y.get('d') or '').endswith('BodyItemNode::Agg') for y, _ in walk(a['p'])):
+                    continue
+                binds = {bb['id'] for bb in pat_bindings_(a['p'])}
+                touched = set()
+                for y, _ in walk(a['b']):
+                    if y.get('k') == 'field' and y['n'] in agg_carriers:
+                        r = chain_root(y)
+                        if r is not None and r.get('id') in binds:
+                            touched.add(y['n'])
+                per_fn[b['name']] = (path, touched, a['b'])
+                rep.inst('M4', '%s: the Agg arm looks into %s of AggClauseNode (carriers of variables: %s)' % (path, sorted(touched), agg_carriers))
+                rep.functions.add(path)
+    if len(per_fn) < 3:
+        raise Broken('M4: Agg arms of the three hygiene visitors not found (%s)' % sorted(per_fn))
+    union = set().union(*[t for _, t, _ in per_fn.values()])
+    for f in agg_carriers:
+        if f not in union:
+            rep.viol('M4', 'ascent_syntax::body_item_* (Agg arms)', 'agg-part-unvisited:' + f,
+                     'no hygiene visitor looks into `%s` of an aggregation: variables there keep their source names when a macro body '
+                     'is expanded - they meet call-site variables of the same name' % f, loc=cr.loc(per_fn['body_item_visit_bound_vars_mut'][2]))
+    g, v = per_fn['body_item_get_bound_vars'][1], per_fn['body_item_visit_bound_vars_mut'][1]
+    if g != v:
+        rep.viol('M4', 'ascent_syntax::body_item_visit_bound_vars_mut', 'agg-siblings-disagree',
+                 'the collector of bound variables looks into %s of an aggregation, the renaming visitor into %s: a variable that is '
+                 'collected but not renamed (or the reverse) is renamed at its uses only' % (sorted(g), sorted(v)))
     return n
 
 
